@@ -255,7 +255,8 @@ func (b *PathBuilder) buildIndex(buf []rune) (int, error) {
 		switch buf[cursor] {
 		case ']':
 			index, err := strconv.ParseInt(string(buf[:cursor]), 10, 64)
-			if err != nil {
+			if err != nil || index < 0 {
+				// an index counts from the start of the array: there is no element -1
 				return 0, errors.ErrInvalidPath("%q is unexpected index path", buf[:cursor])
 			}
 			b.addIndexNode(int(index))
